@@ -21,10 +21,12 @@ def make_cases(chk):
     cases = []
     ops = ["compose_f_schema", "compose_f_schema", "compose_f_tree", "apply_func", "elim"]
     for i in range(220 if quick else 16000):
-        # well-scaled predicates only: with coefficients of 1e4..1e5 the LP's vertices miss half-spaces by more than 1e-8, the
-        # repair heuristic sometimes fails and the *unchanged* code then leaves Indeterminate nodes / one-armed decisions
-        # (measured on seeds 0..4) - that regime is the LP-tolerance carve-out of the property, not a finding
-        h = Hist("p%d" % i, rng, max_ops=5, ops=ops, total=True, start=rng.choice(["tree", "aff", "poly"]))
+        # every fourth pipeline has predicates with coefficients of 1e3..1e5: there the LP's vertex misses a half-space by more
+        # than the absolute 1e-8 of contains(), phase_two has to repair it, and where the repair fails the node legitimately
+        # stays Indeterminate ("less pruning", the situation of C11).  In that family the single-branch / idempotence clauses
+        # are demanded only for nodes whose region is robustly fat (see fat_region), where the repair has no excuse.
+        scale = rng.choice([FR(10**3), FR(10**4) * FR(7, 3), FR(10**5)]) if i % 4 == 1 else None
+        h = Hist("p%d" % i, rng, max_ops=5, ops=ops, total=True, start=rng.choice(["tree", "aff", "poly"]), scale=scale)
         # pipelines end in: eliminate, export, eliminate again, export
         h._op("elim")
         b = h.export("t")
@@ -33,6 +35,7 @@ def make_cases(chk):
         c = h.case()
         c["final"] = (h.checkpoints[-1]["before"], b, a, len(h.steps) - 2)
         c["kind"] = "pipeline"
+        c["scaled"] = scale is not None
         cases.append(c)
     # distilled ReLU-type networks for the region-count clause
     for i in range(40 if quick else 2000):
@@ -104,6 +107,18 @@ def pattern_regions(layers, n):
     return out
 
 
+FAT = FR(1, 1000)
+BOX = 16
+
+
+def fat_region(q, conds):
+    """is there a point with |x_i| <= BOX that satisfies every path condition with geometric margin FAT*|a|_1 ?"""
+    cs = [zclosed(c.closed(-FAT), q.xs) for c in conds]
+    cs += [x <= BOX for x in q.xs] + [x >= -BOX for x in q.xs]
+    r, _ = q.check(cs, want_model=False, sample_tag="C06 region robustly fat")
+    return r == "sat"
+
+
 def solve_case(args):
     case, res, conv = args
     out = {"id": case["id"], "viol": [], "obl": 0, "undecided": [], "stats": None, "nontrivial": False}
@@ -136,14 +151,25 @@ def solve_case(args):
                 out["undecided"].append("node %d" % idx)
             if not nd.leaf and sum(1 for c in nd.children if c is not None) == 1:
                 out["obl"] += 1
-                out["viol"].append(("single-branch-decision", "decision %d below the root is left with a single branch" % idx))
+                only = [c for c in nd.children if c is not None][0]
+                if case.get("scaled") and not fat_region(q, A.path_conds(only, conv)[0]):
+                    out["carved"] = out.get("carved", 0) + 1
+                else:
+                    out["viol"].append(("single-branch-decision", "decision %d below the root is left with a single branch" % idx))
         out["obl"] += 2
         sa = [(n["idx"], n["leaf"], n["parent"], n["children"], n["mat"], n["bias"], n["state"]) for n in res[ai]["out"]["nodes"]]
         sa2 = [(n["idx"], n["leaf"], n["parent"], n["children"], n["mat"], n["bias"], n["state"]) for n in res[a2i]["out"]["nodes"]]
         if sa != sa2:
             out["viol"].append(("not-idempotent", "a second infeasible_elimination changes the tree (%d -> %d nodes)" % (len(A.nodes), len(A2.nodes))))
         cnt = res[call2]["out"]
-        if cnt["lps_solved"] != 0:
+        lp_excused = False
+        if cnt["lps_solved"] != 0 and case.get("scaled"):
+            # LPs of the second run are excused when every node still Indeterminate has a thin / far-away region
+            ind = [i for i, nd in A.nodes.items() if i != A.root and nd.state == ("indeterminate",)]
+            lp_excused = bool(ind) and not any(fat_region(q, A.path_conds(i, conv)[0]) for i in ind)
+            if lp_excused:
+                out["carved"] = out.get("carved", 0) + 1
+        if cnt["lps_solved"] != 0 and not lp_excused:
             out["viol"].append(("second-run-solves-lps", "a second infeasible_elimination solved %d LPs" % cnt["lps_solved"]))
         out["stats"] = (q.stats.sat, q.stats.unsat, q.stats.unknown, q.stats.solver_s, q.stats.samples)
         return out
@@ -186,6 +212,10 @@ def main():
         chk.count("cases_" + case["kind"])
         if o.get("precondition_not_met"):
             chk.count("pipelines_skipped_not_total")
+        if case.get("scaled"):
+            chk.count("pipelines_scaled")
+        if o.get("carved"):
+            chk.count("scaled_obligations_excused_thin_region", o["carved"])
         if o["nontrivial"]:
             chk.nontrivial.add(case["id"])
         if o["stats"]:
